@@ -309,3 +309,6 @@ def check(run):
     info = rules_pairs(run)
     run.guard(rules_reflexive, run, info)
     run.guard(rules_swallow, run)
+    # two enabled transitions of one state must end up in one group to be seen as a pair: the grouping helper puts every item in exactly one group per key
+    from .c01 import rules_groupby
+    run.guard(rules_groupby, run, 'C04.6')
